@@ -556,19 +556,23 @@ pub fn run(ctx: &Ctx) -> CheckResult {
         } else {
             want = want.replace("    low_res_scale: false,\n", "");
         }
-        want = want.replace("    has_data: true,\n", &format!("    has_data: true,\n    rt_width: {},\n    rt_height: {},\n", rw, rh));
+        // every other case states the render-target size under the deprecated key names, whose meaning
+        // truth's own deprecation warning gives ('width' -> 'rt_width', 'height' -> 'rt_height')
+        let deprecated = i % 2 == 1;
+        let (kw, kh) = if deprecated { ("width", "height") } else { ("rt_width", "rt_height") };
+        want = want.replace("    has_data: true,\n", &format!("    has_data: true,\n    {}: {},\n    {}: {},\n", kw, rw, kh, rh));
         let src_spec = if game == "th10" { src_spec.replace("    low_res_scale: false,\n", "") } else { src_spec };
         cases.push(Case {
             property: "C17".into(),
             oracle: "fieldwise".into(),
-            name: format!("explicit-fields#{} {} fmt={} {}x{} memory_priority={} low_res_scale={} rt={}x{}", i, game, fmt, w, h, mp, lrs, rw, rh),
+            name: format!("explicit-fields#{} {} fmt={} {}x{} memory_priority={} low_res_scale={} rt={}x{}{}", i, game, fmt, w, h, mp, lrs, rw, rh, if deprecated { " [deprecated keys]" } else { "" }),
             inputs: vec![Input::tree("map/"), Input::text("src.spec", &src_spec), Input::text(crate::scen::SRC, &want), Input::text("fields.map", "!anmmap\n"), Input::bytes(&format!("gen/{}", PATH), encode_png(w, h, &gen_pixels(w, h, &mut rng)))],
             steps: vec![
                 Step::new(vec![s("truanm"), s("compile"), s("-g"), s(game), s("src.spec"), s("-i"), s("gen"), s("-o"), s("orig.anm")]),
                 Step::new(vec![s("truanm"), s("compile"), s("-g"), s(game), s(crate::scen::SRC), s("-i"), s("orig.anm"), s("-o"), s(crate::scen::OUT)]),
                 Step::new(vec![s("truanm"), s("decompile"), s("-g"), s(game), s(crate::scen::OUT), s("-o"), s(crate::scen::DEC), s("--no-blocks"), s("--no-intrinsics")]),
             ],
-            meta: json!({"compile_step": 1}),
+            meta: json!({"compile_step": 1, "request_rename": if deprecated { json!([["    width:", "    rt_width:"], ["    height:", "    rt_height:"]]) } else { json!([]) }}),
         });
     }
     for i in 0..(if quick { 25 } else { 400 }) {
